@@ -379,6 +379,9 @@ def _path_exists_in_attrset(target_set: AttributeSet, segments: list[str]) -> bo
 
     current = target_set
     for index, segment in enumerate(segments):
+        if index and _find_attrpath_leaf(current, segments[index:]) is not None:
+            # The rest of the path is spelled as attrpath bindings inside this set.
+            return True
         binding = _find_named_binding(current.values, segment, nested=False)
         if binding is None:
             return False
